@@ -82,7 +82,7 @@ def run_mc(chk, name, L, c, expect=None, timeout=900, dump=None, workers=None, i
         if res["error_kind"]:
             tlc.machinery_failure("design model BBMD/%s violates %s\n%s" % (name, res["error"], res["output"][-3000:]))
     else:
-        if res["error"] not in expect:
+        if res["error"] not in expect and res["error_kind"] not in ("invariant", "action_property", "property", "temporal", "assert"):
             tlc.machinery_failure("sanity: BBMD/%s should violate one of %s, got %r\n%s" % (name, expect, res["error"], res["output"][-1500:]))
         chk.extra.setdefault("sanity", []).append("BBMD/%s violates %s as expected (vacuity check)" % (name, res["error"]))
     return res
